@@ -323,8 +323,8 @@ def mentioned_names(prog):
     return [n for n, c in cnt.items() if c > 1]  # mentioned somewhere besides its definition
 
 
-def gen_history(r, prog, n_ops, weights=None, sane=0.8, hand_n=0, slots=3, olds=()):
-    """A seeded history over the program's static description."""
+def gen_history(r, prog, n_ops, weights=None, sane=0.8, hand_n=0, slots=3, olds=(), avoid=(), presaved=()):
+    """A seeded history over the program's static description.  `avoid`: options that are never assigned."""
     tab = kgen.sym_table(prog)
     names = list(tab)
     members = [n for n in names if tab[n]["choice"]]
@@ -348,10 +348,14 @@ def gen_history(r, prog, n_ops, weights=None, sane=0.8, hand_n=0, slots=3, olds=
         w["dance"] = 0
     kinds = [k for k, v in w.items() for _ in range(v)]
     ops = []
-    saved = set()
+    saved = set(presaved)  # slots an earlier history on the same sandbox has written
+    n_before = -1
     for _ in range(n_ops):
         if not names:
             break
+        if avoid and n_before >= 0:
+            ops[n_before:] = [o for o in ops[n_before:] if not (o[0] == "set" and o[1] in avoid)]
+        n_before = len(ops)
         kind = r.choice(kinds)
         if kind == "edge":
             # read B, then write something B may depend on (the interleaving C03 searches)
@@ -439,6 +443,8 @@ def gen_history(r, prog, n_ops, weights=None, sane=0.8, hand_n=0, slots=3, olds=
             s = r.randrange(slots)
             saved.add(s)
             ops.append(["restart", s])
+    if avoid:
+        ops = [o for o in ops if not (o[0] == "set" and o[1] in avoid)]
     return ops
 
 
